@@ -558,8 +558,25 @@ def gen_C03(c, rng, tier):
 def gen_C05(c, rng, tier):
     for t in TYPES:
         fmt = FMTS[t]
-        extremes = [Fraction(2) ** fmt.emin, fmt.max, -fmt.max, '-0', Fraction(1, 3), Fraction(2) ** (fmt.emin + 5) * 3, Fraction(1, 10), -Fraction(2) ** (4 - fmt.emax),
-                    Fraction(123456789, 1000), fmt.pred(Fraction(1)), fmt.succ(Fraction(1))]
+        half = min(fmt.emax // 2 - 2, 500)
+        # values whose square neither overflows (all fields stay finite, as the property requires)
+        extremes = [Fraction(2) ** fmt.emin, Fraction(2) ** half - 1, -(Fraction(2) ** half) * 3 / 4, '-0', Fraction(1, 3), Fraction(2) ** (fmt.emin + 5) * 3, Fraction(1, 10),
+                    -Fraction(2) ** (4 - half), Fraction(123456789, 1000), fmt.pred(Fraction(1)), fmt.succ(Fraction(1))]
+        # every representable class, through fields that are stored verbatim: a user grid and the adaptation parameters of a
+        # fresh checkpoint (no iteration is run, so nothing is computed from them)
+        verbatim = [fmt.max, -fmt.max, Fraction(2) ** fmt.emin, -Fraction(2) ** fmt.emin, '-0', Fraction(0), fmt.pred(Fraction(1)), fmt.succ(Fraction(1)),
+                    Fraction(1, 3), Fraction(1, 10), Fraction(2) ** (fmt.emin + fmt.prec - 1), fmt.pred(Fraction(2) ** (fmt.emin + fmt.prec - 1)), Fraction(10) ** 15 + 1,
+                    Fraction(5, 10 ** 8), Fraction(2) ** 70 / 3]
+        for _ in range(scale(tier, 12, 120)):
+            vals = [fmt.round(v) if isnum(v) else v for v in (rng.sample(verbatim, 6) + [fmt.round(Fraction(rng.getrandbits(70), 3 ** rng.randint(1, 40)) * Fraction(2) ** rng.randint(-200, 200) if fmt.emax > 200 else Fraction(rng.getrandbits(30), 3 ** rng.randint(1, 20)))])]
+            bins = rng.choice([1, 2, 5]); dims = rng.choice([1, 2])
+            xs = [rng.choice(vals) for _ in range((bins + 1) * dims)]
+            ops = [['dump'], ['text'], ['reload'], ['dump'], ['text']]
+            s = spec_run('vegas', fmt, dims=dims, chk=['pdf', bins, dims, toks(fmt, xs), fmt.tok(rng.choice(vals))], f=['tab', [fmt.tok(Fraction(1))]], ops=ops)
+            c.add(t, 'run', s, classes=['verbatim_grid', 'kind_vegas'])
+            s = spec_run('mc', fmt, dims=1, channels=2, chk=['default', fmt.tok(rng.choice(vals)), fmt.tok(rng.choice(vals))], f=['tab', [fmt.tok(Fraction(1))]],
+                         mp=['tab', [], [fmt.tok(Fraction(1))], [fmt.tok(Fraction(1))]], ops=ops)
+            c.add(t, 'run', s, classes=['verbatim_parameters', 'kind_mc'])
         for kind in KINDS:
             for _ in range(scale(tier, 10, 80)):
                 ext = rng.random() < 0.5
